@@ -180,7 +180,7 @@ func H_Proof() {
 		return
 	}
 	// forgery part: start from the honest proof of any block b2 of the same trie
-	kind := vp.Choose("tamper", vp.Param("tampers", 9))
+	kind := vp.Choose("tamper", vp.Param("tampers", 10))
 	if ok := vp.Param("onlykind", -1); ok >= 0 && kind != ok {
 		vp.Assume(false)
 	}
@@ -357,6 +357,24 @@ func H_Proof() {
 		fake := &wmpt.PersistNodeBase{Value: &wmpt.PersistNodeValue{Value: val, Hash: pn.Short.Hash, Weight: w}}
 		pt.Pairs = append(append([]*wmpt.PersistTriePair{}, pt.Pairs[:i]...), &wmpt.PersistTriePair{Value: encodeNode(fake)})
 		vp.Cover("C10.short-as-value.built")
+	}
+	if kind == 9 {
+		// lengthen the key of a shared-prefix element by its child's hash and follow it with an
+		// arbitrary value element (the key length of a proof element is attacker-controlled)
+		i := vp.Choose("elem", np)
+		pn := decodeNode(pt.Pairs[i].Value)
+		if pn.Short == nil || len(pn.Short.Value) < 40 {
+			vp.Assume(false)
+		}
+		pn.Short.Key = append(append([]byte{}, pn.Short.Key...), pn.Short.Value[:32]...)
+		var w uint64
+		for q := 32; q < 40; q++ {
+			w = w<<8 | uint64(pn.Short.Value[q])
+		}
+		fv0, fv1 := vp.Byte("forged0"), vp.Byte("forged1")
+		fake := &wmpt.PersistNodeBase{Value: &wmpt.PersistNodeValue{Value: []byte{fv0, fv1, 0x77}, Hash: pn.Short.Value[:32], Weight: w}}
+		pt.Pairs = append(append([]*wmpt.PersistTriePair{}, pt.Pairs[:i]...), &wmpt.PersistTriePair{Value: encodeNode(pn)}, &wmpt.PersistTriePair{Value: encodeNode(fake)})
+		vp.Cover("C10.long-key.built")
 	}
 	forged := encodePairs(pt)
 	var fh, fv []byte
